@@ -91,7 +91,9 @@ pub fn grammar() -> Vec<Case> {
     let versions = [http::Version::HTTP_09, http::Version::HTTP_10, http::Version::HTTP_11, http::Version::HTTP_2, http::Version::HTTP_3];
     let hosts = ["example.com", "127.0.0.1", "[::1]", "a_b.test", "-", "a..b", "exa$mple.com", "EXAMPLE.COM", "[::1]:8443", "example.com:0", "user:pw@example.com", "u@[::1]:65535",
         // a colon without a usable port: empty (legal per RFC 3986) or out of range
-        "example.com:", "[::1]:", "example.com:99999"];
+        "example.com:", "[::1]:", "example.com:99999",
+        // brackets that do not hold an IPv6 address (legal for `http::Uri`): a zone identifier, IPvFuture, nothing
+        "[fe80::1%25eth0]", "[v1.fe]", "[]"];
     let mut uris: Vec<(String, &'static str)> = vec![];
     for h in hosts {
         uris.push((format!("http://{h}/p?q=1"), "absolute-http"));
